@@ -62,6 +62,9 @@ STATEMENT_STATUS: Dict[str, str] = {
     "chain_rt": "proved: chains of any length, by induction; stages for AHx, A85, LZW, RL, Fl (zlib abstract) under full and "
                 "abbreviated names (membership in the regenerated LITERALS_* tuples) with any predictor setting",
     "stream_chain_rt": "proved: PDFStream.get_filters/decode on the Filter and DecodeParms arrays of a chain",
+    "filter_names": "proved: full and abbreviated name of each supported filter is in its regenerated LITERALS_* tuple",
+    "rldecode_fuel/lzwdecode_fuel/png_fuel/tiff_fuel": "proved: the fuel of every model loop suffices on every input",
+    "png_pinned_*_cex": "proved counter-examples: the pinned (pre-fix) predictor parameters fail on the corpus inputs",
     "stream_delim": "proved: payload delimited exactly for LF / CRLF (and CR not followed by LF), any payload bytes, Length = |payload|",
 }
 
